@@ -15,3 +15,18 @@ pub fn should_fail_append(_path: &str) -> bool {
     }
     FAIL_APPEND_IN.fetch_sub(1, Ordering::SeqCst) == 1
 }
+
+/// File-mutation events: the harness registers a callback that is invoked synchronously after every
+/// completed create / append / overwrite / delete of a log, index, consumer-offset or state file.
+type FsCallback = Box<dyn Fn(&str, &str, u64) + Send + Sync>;
+static FS_CALLBACK: std::sync::OnceLock<FsCallback> = std::sync::OnceLock::new();
+
+pub fn set_fs_callback(callback: FsCallback) {
+    let _ = FS_CALLBACK.set(callback);
+}
+
+pub fn fs_event(kind: &str, path: &str, len: u64) {
+    if let Some(callback) = FS_CALLBACK.get() {
+        callback(kind, path, len);
+    }
+}
